@@ -32,6 +32,10 @@ def pkg_of(ref, cfg):
     if "/" in r:
         k = r.index(".", r.rindex("/"))
         return resolve_import(r[:k], cfg), r[k + 1:]
+    # an alias may itself contain dots (`a.b.NewB` with alias `a.b`): the import part is matched greedily
+    if "." in r and r.rsplit(".", 1)[0] in cfg.get("meta", {}).get("imports", {}):
+        imp, sym = r.rsplit(".", 1)
+        return resolve_import(imp, cfg), sym
     m = re.match(r'^([^."]+)\.(.*)$', r)
     if not m:
         return None, ref
@@ -102,6 +106,10 @@ def eval_pattern(cfg, s, depth=0):
             return ("err", argv[0] if argv else "parameter todo")
         elif cfg.get("meta", {}).get("functions", {}).get(fn, "").endswith(".Fn1") or fn == "myfn":
             vals.append("fn1/%d" % len(argv))
+        elif cfg.get("meta", {}).get("functions", {}).get(fn, "").endswith(".FnU") and len(argv) == 2:
+            vals.append("u%d/f%d" % (argv[0], argv[1]))
+        elif cfg.get("meta", {}).get("functions", {}).get(fn, "").endswith(".FnD") and len(argv) == 2:
+            vals.append("d%d/%s" % (argv[0], argv[1]))
         elif cfg.get("meta", {}).get("functions", {}).get(fn, "").endswith(".FnInt"):
             vals.append(41 + len(argv))
         else:
